@@ -44,9 +44,10 @@ func ZZ_C11_views() {
 	if vr.Tier() > 0 {
 		extra = 3
 	}
-	m := zzBuildNode(extra, 7)
+	const genesis = 8 // one more than the minimum, so that a removal candidate exists inside the daily window
+	m := zzBuildNode(extra, genesis)
 	full := m.node
-	if len(m.records) == 7 {
+	if len(m.records) == genesis {
 		return
 	}
 	last := m.records[len(m.records)-1]
@@ -82,7 +83,21 @@ func ZZ_C11_views() {
 	round := uint64(vr.Choose(0, 1))
 	ca := &Chain{node: full, ChainId: zzId(1), State: &ChainState{}}
 	cb := &Chain{node: prefix, ChainId: zzId(1), State: &ChainState{}}
+	// the reported indexes must not be changed by asking for the key vector (no shared state)
+	type idx struct {
+		id crypto.Hash
+		i  int
+	}
+	var beforeIdx []idx
+	for _, cn := range full.NodesListWithoutState(ts, false) {
+		beforeIdx = append(beforeIdx, idx{cn.IdForNetwork, cn.ConsensusIndex})
+	}
 	ia, ka := ca.ConsensusKeys(round, ts)
+	for i, cn := range full.NodesListWithoutState(ts, false) {
+		if i < len(beforeIdx) {
+			vr.Assert(cn.IdForNetwork == beforeIdx[i].id && cn.ConsensusIndex == beforeIdx[i].i, "consensus-indexes-unchanged-by-a-key-vector-query")
+		}
+	}
 	ib, kb := cb.ConsensusKeys(round, ts)
 	vr.Assert(zzSameKeys(ia, ka, ib, kb), "signer-key-vector-ignores-later-records")
 	if len(full.NodesListWithoutState(ts, true)) >= config.KernelMinimumNodesCount {
